@@ -48,7 +48,11 @@ package main
 import (
 	"encoding/json"
 	"fmt"
+	"regexp"
 	"strings"
+
+	"github.com/xjslang/xjs/lexer"
+	"github.com/xjslang/xjs/parser"
 
 	"xjsverif/internal/jsgen"
 	"xjsverif/internal/oracle"
@@ -242,6 +246,47 @@ func c08WithMap(cfg string) string {
 // c08Warm: the next checks reuse a Compiler that has already compiled something
 var c08Warm bool
 
+// c08BlockPlugin: the next checks parse with a lexer plugin that consumes block comments
+var c08BlockPlugin bool
+
+var c08BlockAtLineEnd = regexp.MustCompile(`\*/[ \t]*(\r|\n|//|$)`)
+
+// c08BlankBlocks replaces every `/* … */` by blanks, keeping line breaks: offsets, lines and columns stay
+func c08BlankBlocks(src string) string {
+	b := []byte(src)
+	for i := 0; i+1 < len(b); i++ {
+		switch {
+		case b[i] == '"' || b[i] == '\'' || b[i] == '`': // skip literals
+			q := b[i]
+			for i++; i < len(b) && b[i] != q; i++ {
+				if b[i] == '\\' {
+					i++
+				}
+			}
+		case b[i] == '/' && b[i+1] == '/':
+			for i < len(b) && b[i] != '\n' {
+				i++
+			}
+		case b[i] == '/' && b[i+1] == '*':
+			j := i
+			for j+1 < len(b) && !(b[j] == '*' && b[j+1] == '/' && j > i+1) {
+				j++
+			}
+			end := j + 2
+			if end > len(b) {
+				end = len(b)
+			}
+			for k := i; k < end; k++ {
+				if b[k] != '\n' {
+					b[k] = ' '
+				}
+			}
+			i = end - 1
+		}
+	}
+	return string(b)
+}
+
 func c08Check(c *oracleCtx, src, cfg string, steer bool) {
 	cfg = c08WithMap(cfg)
 	input := map[string]any{"src": hexOf(src), "text": src, "cfg": cfg}
@@ -256,8 +301,22 @@ func c08Check(c *oracleCtx, src, cfg string, steer bool) {
 		genSide = false
 		c.bump("steered-away:" + clsPrettyMap)
 	}
+	blockPlugin := c08BlockPlugin
+	if blockPlugin {
+		input["lexer-plugin"] = "block-comments"
+	}
 	guard(c, "", input, func() {
 		prog, errs := oaParse(src)
+		if blockPlugin {
+			// the lexer gets a plugin that consumes `/* … */` itself; for the oracle's own scanner the comments are blanked
+			// out, which moves no token
+			lb := lexer.NewBuilder()
+			lb.UseTokenInterceptor(blockCommentPlugin)
+			p := parser.NewBuilder(lb).Build(src)
+			prog, _ = p.ParseProgram()
+			errs = p.Errors()
+			src = c08BlankBlocks(src)
+		}
 		if len(errs) > 0 {
 			c.bump("parse-error")
 			if dbgB {
@@ -518,6 +577,10 @@ func oracleC08(c *oracleCtx) {
 						c08Warm = true
 						defer func() { c08Warm = false }()
 					}
+					if oaStr(m, "lexer-plugin") != "" {
+						c08BlockPlugin = true
+						defer func() { c08BlockPlugin = false }()
+					}
 					c08Check(c, src, cfg, false)
 				}()
 			}
@@ -543,6 +606,16 @@ func oracleC08(c *oracleCtx) {
 		c08Warm = c.r.Intn(3) == 0
 		defer func() { c08Warm = false }()
 		c08Check(c, src, "cm", true)
+		if c.r.Intn(4) == 0 && !strings.ContainsAny(src, "`\"'/") {
+			// the same program with block comments that a lexer plugin consumes
+			// (the plugin hands over right behind the comment and its blanks: a comment at the end of a line would leave the
+			// line break to the lexer as a token, so such layouts are left out)
+			if bsrc := strings.ReplaceAll(src, " ", []string{" /* c */ ", " /* a\n   b */ ", " /**/"}[c.r.Intn(3)]); !c08BlockAtLineEnd.MatchString(bsrc) {
+				c08BlockPlugin = true
+				c08Check(c, bsrc, "cm", true)
+				c08BlockPlugin = false
+			}
+		}
 		if c.r.Intn(3) == 0 {
 			c08Check(c, src, c08PrettyCfg(c), true)
 		}
